@@ -13,7 +13,7 @@ from fractions import Fraction
 class Gen:
     def __init__(self, rng: random.Random, gdim=2, with_args=False, math=True, compound=True, derivs=False,
                  cond=True, variables=True, reuse=0.7, division=True, literals=True, restricted=False, powers=True,
-                 tensor_cond=False, base_elements=False):
+                 tensor_cond=False, base_elements=False, minmax=True):
         import ufl
         from utils import LagrangeElement
         if base_elements:      # utils.FiniteElement itself: its repr evaluates back to the same type
@@ -26,7 +26,7 @@ class Gen:
         cell = {1: ufl.interval, 2: ufl.triangle, 3: ufl.tetrahedron}[gdim]
         self.mesh = ufl.Mesh(LagrangeElement(cell, 1, (gdim,)))
         self.opts = dict(math=math, compound=compound, derivs=derivs, cond=cond, variables=variables, division=division,
-                         literals=literals, restricted=restricted, powers=powers, tensor_cond=tensor_cond)
+                         literals=literals, restricted=restricted, powers=powers, tensor_cond=tensor_cond, minmax=minmax)
         self.reuse = reuse
         self.spaces = {}
         self.coeffs = {}     # shape -> [Coefficient]
@@ -186,7 +186,7 @@ class Gen:
             if o["powers"]:
                 prods.append(("power", 1))
             if not fi:
-                prods += [("abs", 1), ("minmax", 1)]
+                prods += [("abs", 1)] + ([("minmax", 1)] if o["minmax"] else [])
                 if o["math"]:
                     prods.append(("mathfn", 2))
                 if o["compound"]:
